@@ -91,6 +91,9 @@ func (reobsHarness) Gen(seed uint64, prop, tier string) *simkit.Program {
 		case 4:
 			add("post", int64(r.Intn(4)), int64(r.Intn(3)), 0)
 		}
+		if i == n/2 && r.P(0.04) {
+			add("flood", int64(r.Intn(3)), int64(r.Intn(200)), 0)
+		}
 	}
 	return p
 }
@@ -141,97 +144,127 @@ func (h reobsHarness) Exec(p *simkit.Program) *simkit.Result {
 			}
 			return m
 		}
+		doReq := func(chain uint32, tx []byte) {
+			key := fwdKey{chain, string(tx)}
+			before := qlen()
+			q, known := queues[vaa.ChainID(chain)]
+			full := known && len(q) == cap(q)
+			req := &gossipv1.ObservationRequest{ChainId: chain, TxHash: tx}
+			select {
+			case obsvReqC <- req:
+			default:
+				violate("dispatcher-inbox-full", "the dispatcher inbox filled up: it is not consuming")
+				blocked = true
+			}
+			synctest.Wait()
+			if len(obsvReqC) != 0 {
+				violate("dispatcher-blocked", "request for chain %d was not consumed: the dispatcher is blocked", chain)
+				blocked = true
+			}
+			after := qlen()
+			now := time.Now()
+			fwd := false
+			for c, n := range after {
+				d := n - before[c]
+				if d == 0 {
+					continue
+				}
+				if c != chain || d != 1 {
+					violate("request-routed-to-wrong-watcher", "request for chain %d changed the queue of chain %d by %d", chain, c, d)
+					continue
+				}
+				fwd = true
+			}
+			if fwd {
+				// the element that arrived must be this request: drain-and-refill check of the tail
+				q := queues[vaa.ChainID(chain)]
+				n := len(q)
+				var tail *gossipv1.ObservationRequest
+				for k := 0; k < n; k++ {
+					e := <-q
+					q <- e
+					tail = e
+				}
+				if tail == nil || tail.ChainId != chain || !bytes.Equal(tail.TxHash, tx) {
+					violate("forwarded-request-altered", "the watcher of chain %d received another request than the one sent", chain)
+				}
+			}
+			last, seen := lastFwd[key]
+			switch {
+			case !known:
+				dropsUnknown++
+				stats.Fault("unknown-chain")
+				if fwd {
+					violate("unknown-chain-forwarded", "request for chain %d without watcher was forwarded", chain)
+				}
+			case full:
+				dropsFull++
+				stats.Fault("watcher-queue-full")
+				if fwd {
+					violate("forwarded-into-full-queue", "queue of chain %d was full", chain)
+				}
+			case !seen:
+				if !fwd {
+					violate("fresh-request-not-forwarded", "first request (or first after a drop) for chain %d tx %x was not forwarded although the queue had room", chain, tx[:2])
+				}
+			case now.Sub(last) < 11*time.Minute-time.Second:
+				if fwd {
+					violate("forwarded-twice-within-window", "chain %d tx %x forwarded again %v after the previous forward", chain, tx[:2], now.Sub(last))
+				} else {
+					suppressed++
+				}
+			case now.Sub(last) >= 18*time.Minute+time.Second:
+				if !fwd {
+					violate("not-forwarded-after-window", "chain %d tx %x not forwarded %v after the previous forward", chain, tx[:2], now.Sub(last))
+				}
+				stats.Probe("forwarded-again-after-window")
+			default:
+				stats.Probe("request-in-grey-zone")
+			}
+			if fwd {
+				forwards++
+				lastFwd[key] = now
+			}
+			log.Add("req chain=%d tx=%x fwd=%v", chain, tx[:1], fwd)
+		}
 		for i, st := range p.Steps {
 			step = i
+			if blocked {
+				break
+			}
 			switch st.Op {
 			case "req":
 				ci := st.A % int64(len(reobsChains))
 				if ci < 0 {
 					ci = -ci
 				}
-				chain := reobsChains[ci]
-				tx := reobsTx(st.B)
-				key := fwdKey{chain, string(tx)}
-				before := qlen()
-				q, known := queues[vaa.ChainID(chain)]
-				full := known && len(q) == cap(q)
-				req := &gossipv1.ObservationRequest{ChainId: chain, TxHash: tx}
-				select {
-				case obsvReqC <- req:
-				default:
-					violate("dispatcher-inbox-full", "the dispatcher inbox filled up: it is not consuming")
-					blocked = true
+				doReq(reobsChains[ci], reobsTx(st.B))
+			case "flood":
+				// a backlog replay: more than a thousand distinct transactions of one chain are requested
+				// within one window (the watcher keeps up), then early ones are asked for again
+				c := reobsChains[(st.A%3+3)%3]
+				q := queues[vaa.ChainID(c)]
+				mk := func(k int) []byte {
+					b := bytes.Repeat([]byte{0xf1}, 32)
+					b[0], b[1], b[2] = byte(st.B), byte(k>>8), byte(k)
+					return b
 				}
-				synctest.Wait()
-				if len(obsvReqC) != 0 {
-					violate("dispatcher-blocked", "request for chain %d was not consumed: the dispatcher is blocked", chain)
-					blocked = true
+				n := 1030 + int(st.B%200)
+				for k := 0; k < n && !blocked; k++ {
+					for len(q) > 0 {
+						<-q
+					}
+					doReq(c, mk(k))
 				}
-				after := qlen()
-				now := time.Now()
-				fwd := false
-				for c, n := range after {
-					d := n - before[c]
-					if d == 0 {
-						continue
+				for _, k := range []int{0, 1, n / 2, n - 1} {
+					for len(q) > 0 {
+						<-q
 					}
-					if c != chain || d != 1 {
-						violate("request-routed-to-wrong-watcher", "request for chain %d changed the queue of chain %d by %d", chain, c, d)
-						continue
-					}
-					fwd = true
-				}
-				if fwd {
-					// the element that arrived must be this request: drain-and-refill check of the tail
-					q := queues[vaa.ChainID(chain)]
-					n := len(q)
-					var tail *gossipv1.ObservationRequest
-					for k := 0; k < n; k++ {
-						e := <-q
-						q <- e
-						tail = e
-					}
-					if tail == nil || tail.ChainId != chain || !bytes.Equal(tail.TxHash, tx) {
-						violate("forwarded-request-altered", "the watcher of chain %d received another request than the one sent", chain)
+					if !blocked {
+						doReq(c, mk(k))
 					}
 				}
-				last, seen := lastFwd[key]
-				switch {
-				case !known:
-					dropsUnknown++
-					stats.Fault("unknown-chain")
-					if fwd {
-						violate("unknown-chain-forwarded", "request for chain %d without watcher was forwarded", chain)
-					}
-				case full:
-					dropsFull++
-					stats.Fault("watcher-queue-full")
-					if fwd {
-						violate("forwarded-into-full-queue", "queue of chain %d was full", chain)
-					}
-				case !seen:
-					if !fwd {
-						violate("fresh-request-not-forwarded", "first request (or first after a drop) for chain %d tx %x was not forwarded although the queue had room", chain, tx[:2])
-					}
-				case now.Sub(last) < 11*time.Minute-time.Second:
-					if fwd {
-						violate("forwarded-twice-within-window", "chain %d tx %x forwarded again %v after the previous forward", chain, tx[:2], now.Sub(last))
-					} else {
-						suppressed++
-					}
-				case now.Sub(last) >= 18*time.Minute+time.Second:
-					if !fwd {
-						violate("not-forwarded-after-window", "chain %d tx %x not forwarded %v after the previous forward", chain, tx[:2], now.Sub(last))
-					}
-					stats.Probe("forwarded-again-after-window")
-				default:
-					stats.Probe("request-in-grey-zone")
-				}
-				if fwd {
-					forwards++
-					lastFwd[key] = now
-				}
-				log.Add("req chain=%d tx=%x fwd=%v", chain, tx[:1], fwd)
+				stats.Fault("request-flood")
 			case "adv":
 				d := time.Duration(st.A)
 				if d <= 0 {
